@@ -182,7 +182,7 @@ PROPS['C14'] = dict(
     level_note='assumed: std text->number conversion replaced by token-deterministic nondeterministic results; in line harnesses convert_sound_type is replaced by a marker (the real one is the Verus obligation); text shapes outside the templates, PathType letters beyond B/L/P in templates, collinear-perfect-curve downgrade and duplicate-point splitting values are not decided',
     verus=[dict(unit='hs', tier='quick')],
     kani=['support.kc', 'hit_samples.kc', 'ho_lines.kc'],
-    only_prefix=['hs_', 'ho_line_', 'ho_path_one', 'ho_path_two', 'ho_slider_'],  # ho_slider_line_fields is quick; the two path-bearing slider templates are optional thorough
+    only_prefix=['hs_', 'ho_line_', 'ho_path_', 'ho_points_', 'ho_slider_'],  # ho_slider_line_fields is quick; the two path-bearing slider templates are optional thorough
     kani_functions=['src/section/hit_objects/hit_samples.rs :: impl HitSampleInfo :: fn new', 'src/section/hit_objects/hit_samples.rs :: impl From<&[HitSampleInfo]> for HitSoundType',
                     'src/section/hit_objects/hit_samples.rs :: impl TryFrom<i32> for SampleBank', 'src/section/hit_objects/decode.rs :: impl DecodeBeatmap for HitObjects :: fn parse_hit_objects',
                     'src/section/hit_objects/decode.rs :: impl HitObjectsState :: fn convert_path_str / convert_points / point_split'],
